@@ -5,6 +5,7 @@
 2. applies the patch to /repo, runs the given checks' quick tier, and reverts /repo.
 Prints a JSON summary (also what goes into seeded/<id>/meta.json under "verified")."""
 import json, os, shutil, subprocess, sys, time
+ROOT = os.path.dirname(os.path.dirname(os.path.abspath(__file__)))
 d = sys.argv[1].rstrip("/"); checks = sys.argv[2:]
 name = os.path.basename(d)
 meta = json.load(open(os.path.join(d, "meta.json")))
@@ -78,14 +79,14 @@ try:
         res["error"] = "patch does not apply: " + o[-300:]
     else:
         env["VERIF_REPO"] = wt2
-        env["VERIF_BUILD"] = "/verif/.build-seed-" + name
+        env["VERIF_BUILD"] = "/tmp/seedchk/build-" + name
         for c in checks:
             t = time.time()
-            rcc, oc = sh("bin/check %s --tier quick" % c, cwd="/verif", timeout=3600)
+            rcc, oc = sh("bin/check %s --tier quick" % c, cwd=ROOT, timeout=3600)
             lines = [l for l in oc.splitlines() if l.startswith(("VIOLATION", "OK ", "KNOWN", "MACHINERY")) or l.strip().startswith("what:")]
             res[c] = dict(exit=rcc, wall_s=round(time.time() - t), lines=lines[:6])
 finally:
     sh("git -C /repo worktree remove --force %s" % wt2)
-    shutil.rmtree("/verif/.build-seed-" + name, ignore_errors=True)
+    shutil.rmtree("/tmp/seedchk/build-" + name, ignore_errors=True)
 out["checks"] = res
 print(json.dumps(out, indent=1))
